@@ -35,6 +35,10 @@ type C10Line struct {
 	TimeField  string `json:"time_field,omitempty"`
 	TimeFormat string `json:"time_format,omitempty"` // es | rfc3339 | rfc3339nano | garbage
 	OffsetMs   int64  `json:"offset_ms,omitempty"`   // document time = request time + offset
+	// a second time field of another name, with its own format and instant (@TIME2@)
+	TimeField2  string `json:"time_field2,omitempty"`
+	TimeFormat2 string `json:"time_format2,omitempty"`
+	OffsetMs2   int64  `json:"offset_ms2,omitempty"`
 }
 
 // C10Case is one explicit run.
@@ -211,6 +215,9 @@ func (c *C10Case) body(now time.Time) []byte {
 		text := l.Text
 		if l.Kind == "doc" && l.TimeField != "" {
 			text = strings.Replace(text, "@TIME@", formatTime(now.Add(time.Duration(l.OffsetMs)*time.Millisecond), l.TimeFormat), 1)
+			if l.TimeField2 != "" {
+				text = strings.Replace(text, "@TIME2@", formatTime(now.Add(time.Duration(l.OffsetMs2)*time.Millisecond), l.TimeFormat2), 1)
+			}
 		}
 		b.WriteString(text)
 		if i == len(c.Lines)-1 && c.NoFinalNL {
@@ -715,7 +722,24 @@ func GenC10(seed uint64, thorough bool, maxDoc int) *C10Case {
 				l.TimeFormat = []string{"es", "rfc3339", "rfc3339nano", "garbage"}[r.Intn(4)]
 				offs := []int64{0, -c.DriftMs - 1000, -c.DriftMs, -c.DriftMs + 1000, c.FutureMs - 1000, c.FutureMs, c.FutureMs + 1000, -5, 7, -c.DriftMs * 3}
 				l.OffsetMs = offs[r.Intn(len(offs))]
-				l.Text += fmt.Sprintf(`,"%s":"@TIME@"`, l.TimeField)
+				first := fmt.Sprintf(`,"%s":"@TIME@"`, l.TimeField)
+				if r.Bool(0.3) {
+					// two time fields naming different instants in different formats: the one that comes first
+					// in the order timestamp, time, ts and parses decides, whatever its format and position
+					fs := []string{"timestamp", "time", "ts"}
+					l.TimeField2 = fs[r.Intn(3)]
+					for l.TimeField2 == l.TimeField {
+						l.TimeField2 = fs[r.Intn(3)]
+					}
+					l.TimeFormat2 = []string{"es", "rfc3339", "rfc3339nano", "garbage"}[r.Intn(4)]
+					l.OffsetMs2 = offs[r.Intn(len(offs))]
+					second := fmt.Sprintf(`,"%s":"@TIME2@"`, l.TimeField2)
+					if r.Bool(0.5) {
+						first, second = second, first
+					}
+					first += second
+				}
+				l.Text += first
 			}
 			l.Text += "}"
 			// stay clear of the limit itself: whether a line of exactly the limit is "within" it depends on its
